@@ -187,7 +187,7 @@ prop("C14",
           "the OPEN on the wire must equal Open!OpenMsg byte for byte, or no OPEN at all when unrepresentable")
 
 prop("C13",
-     scripts=lambda tier, rnd: S.admission() + S.multi_listener() + S.pm_busy() + sample(S.inbound_drop(), rnd, 22 if tier == "thorough" else 8),
+     scripts=lambda tier, rnd: S.admission() + S.multi_listener() + S.pm_busy() + S.damping_exact() + sample(S.inbound_drop(), rnd, 22 if tier == "thorough" else 8),
      mc=lambda tier: [mc_pair(["openLo", "ka", "notif"], conns=3 if tier == "thorough" else 2, msgs=2)],
      nontrivial=lambda s, r: any(e["e"] == "acc" for e in syscheck.events_of(r)),
      rule="peer sets x (source, destination) pairs incl. IPv6 and IPv4-mapped x peer state at arrival; a refused connection "
@@ -195,7 +195,8 @@ prop("C13",
 
 prop("C20",
      pure=["registry"],
-     scripts=lambda tier, rnd: S.registry(rnd, 60 if tier == "quick" else 600) + S.api_races(),
+     scripts=lambda tier, rnd: S.registry(rnd, 60 if tier == "quick" else 600) + S.api_races() +
+     [x for x in S.multi_listener() if "dual" in x["id"]],
      mc=lambda tier: [mc_api(4 if tier == "quick" else 5)],
      nontrivial=lambda s, r: sum(1 for e in syscheck.events_of(r) if e["e"] == "ret") >= 3,
      rule="random registry operation sequences (AddPeer/DeletePeer/GetPeer/ListPeers/Serve/Close, inbound handshakes) before, "
